@@ -19,9 +19,11 @@
        line endings unix or dos, declared in the header or left to be detected;
      * metadata sections: the same without indentation; any text (pretty-printed or compact JSON); the JSON
        value is the one json.loads returns for that text (the oracle);
+     * text and metadata sections with NO encoding in force (the documentation: "DiffX files have no default
+       encoding"): content given by its lines as BYTES, newline in ASCII; the reading is bytes;
      * diffs: arbitrary bytes ending with the newline of their kind in their OWN encoding (ASCII if none).
-   What it does not cover (see wf_section): text sections with no encoding in force; BOM-writing codecs whose
-   content carries no BOM; content lines indented by fewer spaces than the indent option says. *)
+   What it does not cover (see wf_section): content lines indented by fewer spaces than the indent option says
+   (every line carries exactly the declared indentation); encodings outside the ten executable codecs. *)
 From Coq Require Import List Arith NArith ZArith Bool Strings.Byte.
 From Coq Require Strings.String.
 From DX Require Import Bytes Res Codec Text Sections Header Json Reader SectionsSpec.
@@ -81,9 +83,11 @@ Definition le_kind_eqb (a b : le_kind) : bool :=
 Record tcontent := { tc_lines : list text; tc_kind : le_kind; tc_bom : bool }.
 
 Inductive fcontent :=
-| FText (t : tcontent)                  (* preamble *)
-| FMeta (t : tcontent) (j : json)       (* metadata: the text, and the value it denotes *)
-| FDiff (raw : bytes) (k : le_kind).    (* diff: bytes, ending with the newline of kind k *)
+| FText (t : tcontent)                              (* preamble *)
+| FMeta (t : tcontent) (j : json)                   (* metadata: the text, and the value it denotes *)
+| FRawText (ls : list bytes) (k : le_kind)          (* preamble with no encoding in force: lines as bytes *)
+| FRawMeta (ls : list bytes) (k : le_kind) (j : json)
+| FDiff (raw : bytes) (k : le_kind).                (* diff: bytes, ending with the newline of kind k *)
 
 Record fsection := {
   fs_id : sid;
@@ -202,6 +206,11 @@ Definition diff_spelling (s : fsection) : bytes :=
   match opt "encoding" (fs_opts s) with Some e => e | None => B "ascii" end.
 Definition diff_codec (s : fsection) : option codec := codec_of (diff_spelling s).
 
+(* no encoding in force: the lines are bytes, the newline is the ASCII one *)
+Definition raw_pieces (k : le_kind) (ls : list bytes) : list bytes := map (fun l => l ++ nl_bytes ascii k) ls.
+Definition raw_body (k : le_kind) (n : nat) (ls : list bytes) : bytes :=
+  concat (map (app (repeat_b x20 n)) (raw_pieces k ls)).
+
 Definition content_body (x : ectx) (s : fsection) : bytes :=
   match fs_content s with
   | None => []
@@ -211,6 +220,7 @@ Definition content_body (x : ectx) (s : fsection) : bytes :=
       | Some c => text_body c (le_text (tc_kind t)) (tc_mark c t) (indent_of s) (tc_lines t)
       | None => []
       end
+  | Some (FRawText ls k) | Some (FRawMeta ls k _) => raw_body k (indent_of s) ls
   end.
 
 Definition eol (crlf : bool) : bytes := if crlf then [x0d; x0a] else [x0a].
@@ -243,6 +253,8 @@ Definition sec_payload (s : fsection) : payload :=
   | None => PNone
   | Some (FText t) => PText (joined t)
   | Some (FMeta _ j) => PMeta j
+  | Some (FRawText ls k) => PBytes (concat (raw_pieces k ls))
+  | Some (FRawMeta _ _ j) => PMeta j
   | Some (FDiff raw _) => PBytes raw
   end.
 
@@ -251,6 +263,7 @@ Definition content_nlines (s : fsection) : nat :=
   match fs_content s with
   | None => 0
   | Some (FText t) | Some (FMeta t _) => length (tc_lines t)
+  | Some (FRawText ls _) | Some (FRawMeta ls _ _) => length ls
   | Some (FDiff raw k) =>
       match diff_codec s with Some c => occurrences byte_eqb (nl_bytes c k) raw | None => 0 end
   end.
@@ -330,16 +343,33 @@ Definition version_ok (ps : list (bytes * bytes)) : bool :=
 Definition lines_clean (nlb : bytes) (pieces : list bytes) : bool :=
   forallb (fun p => Nat.eqb (occurrences byte_eqb nlb p) 1) pieces.
 
+(* the byte order marks of the UTF family, in either byte order *)
+Definition all_boms : list bytes := concat (map snd GenText.boms).
+Definition starts_with_bom (b : bytes) : bool := existsb (fun m => bstarts m b) all_boms.
+
 Definition text_ok (x : ectx) (s : fsection) (t : tcontent) : bool :=
   match text_codec x s with
-  | None => false                                     (* an encoding must be in force, and be a modelled codec *)
+  | None => false                                     (* an encoding is in force, and is a modelled codec *)
   | Some c =>
       let nl := le_text (tc_kind t) in
       nonempty (tc_lines t) &&
       forallb (encodable c nl) (tc_lines t) &&
-      (tc_bom t || is_nil (enc_bom c)) &&
+      (* the content starts with the codec's byte order mark, or the codec writes none, or (a producer that
+         omits it) the encoded text does not itself begin with something that reads as a byte order mark *)
+      (tc_bom t || is_nil (enc_bom c) || negb (starts_with_bom (concat (map (enc_line c nl) (tc_lines t))))) &&
       lines_clean (nl_bytes c (tc_kind t)) (text_pieces c nl (tc_mark c t) (tc_lines t)) &&
       le_ok (fs_opts s) c (tc_kind t) (content_body x s) &&
+      length_ok (fs_opts s) (content_body x s)
+  end.
+
+(* no encoding in force *)
+Definition raw_ok (x : ectx) (s : fsection) (ls : list bytes) (k : le_kind) : bool :=
+  match eff_enc x s with
+  | Some _ => false
+  | None =>
+      nonempty ls &&
+      lines_clean (nl_bytes ascii k) (raw_pieces k ls) &&
+      le_ok (fs_opts s) ascii k (content_body x s) &&
       length_ok (fs_opts s) (content_body x s)
   end.
 
@@ -359,6 +389,8 @@ Definition wf_section (prev : option sid) (x : ectx) (s : fsection) : bool :=
   | SContainer, None => match fs_id s with Main => version_ok (fs_opts s) | _ => true end
   | SPreamble, Some (FText t) => text_ok x s t && indent_ok (fs_opts s)
   | SMeta, Some (FMeta t _) => text_ok x s t && format_ok (fs_opts s)
+  | SPreamble, Some (FRawText ls k) => raw_ok x s ls k && indent_ok (fs_opts s)
+  | SMeta, Some (FRawMeta ls k _) => raw_ok x s ls k && format_ok (fs_opts s)
   | SDiff, Some (FDiff raw k) => diff_ok s raw k
   | _, _ => false
   end.
@@ -378,6 +410,7 @@ Definition wf_file (f : ffile) : bool :=
 Definition oracle_ok_section (orc : oracle) (s : fsection) : Prop :=
   match fs_content s with
   | Some (FMeta t j) => assoc_get beq (oracle_key_text (joined t)) orc = Some (LoadsOk j)
+  | Some (FRawMeta ls k j) => assoc_get beq (oracle_key_bytes (concat (raw_pieces k ls))) orc = Some (LoadsOk j)
   | _ => True
   end.
 Definition oracle_ok_file (orc : oracle) (f : ffile) : Prop := Forall (oracle_ok_section orc) (ff_sections f).
